@@ -57,8 +57,10 @@ class Reporter:
         doc = {"property_id": self.prop, "tier": self.tier, "seed": self.seed, "level": level,
                "coverage": coverage, "assumptions": assumptions, "wall_s": round(time.time() - self.t0, 2),
                "violations": self.new_violations()}
-        os.makedirs(f"{VERIF}/evidence", exist_ok=True)
-        with open(f"{VERIF}/evidence/{self.prop}.json", "w") as f:
+        # seeded-change measurements (tools/now_family.py) keep their evidence out of the registered evidence directory
+        evd = os.environ.get("VERIF_EVIDENCE_DIR") or f"{VERIF}/evidence"
+        os.makedirs(evd, exist_ok=True)
+        with open(f"{evd}/{self.prop}.json", "w") as f:
             json.dump(doc, f, indent=1)
         n = self.new_violations()
         print(f"RESULT property={self.prop} tier={self.tier} violations={n} "
